@@ -37,7 +37,7 @@ func (c20) Plan(tier string) []core.Segment {
 		{Gen: "spec", Count: gen.CorpusSize(), Exhaustive: true},
 		{Gen: "specprefix", Count: gen.PrefixCount(), Exhaustive: true},
 		{Gen: "lines", Profile: "default", Count: scale(tier, 80_000, 3_000_000)},
-		{Gen: "limits", Profile: "default", Count: scale(tier, 12_000, 300_000), Desc: "documents on numeric thresholds: 999-character labels, 9-digit list numbers, reference digit counts, scheme and domain lengths, line endings on the 8 KiB read window, indentation columns, long runs, deep nesting"},
+		{Gen: "limits", Profile: "default", Count: scale(tier, 4_000, 100_000), Desc: "documents on numeric thresholds: 999-character labels, 9-digit list numbers, reference digit counts, scheme and domain lengths, line endings on the 8 KiB read window, indentation columns, long runs, deep nesting"},
 		{Gen: "defsplit", Profile: "default", Count: scale(tier, 30_000, 1_000_000), Desc: "definition-like paragraphs cut into lines at every place, inside containers with space/tab/partly consumed tab prefixes and hostile bytes right after the prefix"},
 		{Gen: "inlinex", Profile: "default", Count: scale(tier, 60_000, 2_000_000), Desc: "well-formed inline trees whose delimiter tokens were deleted, duplicated, moved, swapped or respelled: constructs crossing each other's boundaries"},
 		{Gen: "lines", Profile: "hostile", Count: scale(tier, 40_000, 1_500_000)},
